@@ -174,7 +174,8 @@ impl WriteAheadLog {
     }
 
     pub(crate) fn last_lsn(&self) -> Option<Lsn> {
-        self.header.last_lsn()
+        // The last LSN of the whole log, not only of the records held by block zero.
+        self.header.metadata().wal_header.global_last_lsn
     }
 
     /// Runs the analysis phase of the ARIES recovery protocol.
